@@ -23,9 +23,9 @@ EVAL_KEY = "inputs_judged"
 DISTINCT_KEY = "inputs"
 NSHARDS = {"quick": 8, "thorough": 16}
 FLOORS = {"quick": {"inputs_judged": 60000, "outcome:accepted": 5000, "outcome:rejected": 30000, "step_envelope_checks": 60000,
-                    "root_block_types_accepted": 19, "long_inputs": 10},
+                    "root_block_types_accepted": 19, "long_inputs": 10, "stress_inputs_judged": 400},
           "thorough": {"inputs_judged": 800000, "outcome:accepted": 50000, "outcome:rejected": 400000, "step_envelope_checks": 800000,
-                       "root_block_types_accepted": 19, "long_inputs": 100}}
+                       "root_block_types_accepted": 19, "long_inputs": 60, "stress_inputs_judged": 400}}
 ASSUMPTIONS = ["the step envelope is A*chars+B with A = 8 x the largest steps/char seen on the corpus in this run (floor 256), B = max(5000, 4 x the largest step count of 20 tiny rejected inputs); "
                "the CPU envelope is C*chars+D with C = 50 x the corpus median per-char cost, D = 50 ms, confirmed by 3 isolated repetitions",
                "bulk inputs go through reused Parser/MapfileToDict objects (same code path as loads); a sample goes through mappyfile.loads"]
@@ -288,6 +288,88 @@ def long_inputs(r, cap):
     return out
 
 
+def stress_inputs(r):
+    """Short inputs (< 3000 characters) built to stress the lazy / alternation regex terminals: runs of backslashes, escaped quotes,
+    slashes, percent signs, stars ... inside terminated and UNTERMINATED strings, regexes and comments."""
+    out = []
+    for n in (8, 16, 24, 32, 48, 64, 128, 400, 1000):
+        for q in ('"', "'"):
+            for run in ("\\", "\\" + q, "\\\\", q + q, "\\x"):
+                body = run * n
+                if len(body) > 2500:
+                    continue
+                out.append(f"MAP NAME {q}{body}")                # never closed
+                out.append(f"MAP NAME {q}{body}{q} END")         # closed
+                out.append(f"MAP\n  NAME {q}{body}\n  STATUS ON\nEND")
+        for run in ("/", "%", "*", "`", "\\\\", "/*", "*/", "[", "(", "{", "#"):
+            body = run * n
+            if len(body) <= 2500:
+                out.append("CLASS EXPRESSION " + body)
+                out.append("CLASS EXPRESSION " + body + " END")
+                out.append("MAP /* " + body)
+        out.append("CLASS EXPRESSION (" + "[a] = 1 AND " * min(n, 100) + "[b]")
+        out.append("LAYER DATA " + "a/" * n)
+        out.append("LAYER DATA " + "../" * n + " END")
+        out.append("MAP NAME " + "x" * n + "." * n + "/ END")
+    return out
+
+
+def run_stress(ctx, J):
+    """Pathological short inputs in a child process under RLIMIT_CPU: a kill at the CPU limit is a verdict on CPU time (the
+    envelope for a < 3 kB input is ~0.3 s; the limit is 20 s), never on wall clock."""
+    import json
+    import resource
+    import subprocess
+
+    res = ctx.res
+    r = ctx.rng("c11-stress")
+    inputs = stress_inputs(r)
+    inputs = inputs[ctx.shard::ctx.nshards]
+    fd, path = tempfile.mkstemp(prefix="mf-stress-", suffix=".json")
+    with os.fdopen(fd, "w") as f:
+        json.dump(inputs, f)
+    limit = 20
+    start = 0
+    env = dict(os.environ, PYTHONPATH=core.VERIF + os.pathsep + core.DEPS)
+    try:
+        while start < len(inputs):
+            def pre():
+                resource.setrlimit(resource.RLIMIT_CPU, (limit, limit + 2))
+            p = subprocess.run([core.PY, "-m", "mf.stress_child", path, str(start)], capture_output=True, text=True, env=env,
+                               preexec_fn=pre, timeout=3600, cwd=core.VERIF)
+            started = None
+            done = set()
+            for line in p.stdout.split("\n"):
+                parts = line.split()
+                if parts[:1] == ["START"]:
+                    started = int(parts[1])
+                elif parts[:1] == ["DONE"]:
+                    i, cpu, outc = int(parts[1]), int(parts[2]), parts[3]
+                    done.add(i)
+                    res.count("stress_inputs_judged")
+                    res.seen("inputs", h(inputs[i]))
+                    n = max(len(inputs[i]), 1)
+                    if J.C is not None and cpu > J.C * n + J.D and cpu > 2e9:
+                        res.violation("cpu-envelope-exceeded", {"category": "stress", "text": inputs[i][:300] + ("..." if n > 300 else ""), "len": n},
+                                      {"cpu_ms": cpu / 1e6, "bound_ms": (J.C * n + J.D) / 1e6}, None)
+                    if outc not in ("ok", "UnexpectedCharacters", "UnexpectedToken", "UnexpectedEOF", "VisitError", "ParseError"):
+                        res.violation("non-lark-exception-escapes:" + outc, {"category": "stress", "text": inputs[i][:300], "len": n}, outc, None)
+            if p.returncode == 0:
+                break
+            if started is not None and started not in done:
+                n = len(inputs[started])
+                res.count("stress_inputs_judged")
+                res.violation("cpu-envelope-exceeded", {"category": "stress", "text": inputs[started][:300] + ("..." if n > 300 else ""), "len": n},
+                              {"killed_at_cpu_seconds": limit, "returncode": p.returncode, "bound_ms": ((J.C or 0) * n + J.D) / 1e6},
+                              "within the CPU envelope")
+                start = started + 1
+            else:
+                res.inconclusive_because(f"stress child died without a culprit (rc={p.returncode}): {p.stderr[-300:]}")
+                break
+    finally:
+        os.remove(path)
+
+
 def run(ctx):
     workdir = tempfile.mkdtemp(prefix="mf-c11-")
     old = os.getcwd()
@@ -374,6 +456,7 @@ def _run(ctx):
         res.maximum("largest_input_chars", len(text))
         J.judge(text, cat, depth_ok=depth_ok)
     J.steps.stop()
+    run_stress(ctx, J)
 
 
 def replay(ctx, v):
